@@ -649,6 +649,15 @@ pub fn check_c08(h: &Hist) -> POut {
             }
             if total == 0 && o.ret_seq_or_max() < final_cp.seq {
                 let exempt = any_clear_ret.iter().any(|c| *c > o.inv_seq) || has_getmut_write || o.ret_seq_or_max() > err_at || err_at < final_cp.seq;
+                // stricter sub-case: the value never reached the processor at all (no policy.add for
+                // its index after the insert began) although only a close() — which drains buffered
+                // items through on_evict — intervened
+                let applied = h.obs().any(|(e, ob)| e.seq > o.inv_seq && matches!(ob, ObsEv::AddExit { key, .. } if *key == h.index_of(v.key)));
+                let in_place = h.cbs.iter().any(|c| c.in_op.map(|i| h.ops[i].inv_seq) == Some(o.inv_seq));
+                let closed_only = h.ops.iter().any(|c| matches!(c.op, Op::Close) && c.ret_seq_or_max() > o.inv_seq) && !h.ops.iter().any(|c| matches!(c.op, Op::Clear) && c.ret_seq_or_max() > o.inv_seq);
+                if exempt && closed_only && !applied && !in_place && !has_getmut_write && err_at == u64::MAX {
+                    out.violations.push(viol("C08", "R1-vanished-in-buffer-at-close", final_cp.seq, "accepted value was still buffered when close() ran and was dropped without any callback", format!("value {:?} accepted at seq {} never reached the processor and no callback fired", v, o.ret_seq_or_max())));
+                }
                 if !exempt {
                     out.violations.push(viol("C08", "R1-vanished", final_cp.seq, "accepted value neither resident nor handed to any callback (no clear/close involved)", format!("value {:?} accepted at seq {} is gone without a callback", v, o.ret_seq_or_max())));
                 }
